@@ -47,6 +47,88 @@ class Exec(Engine):
             return self.R.method_contract(self.R.class_of_sort[recv.t.name], meth)
         return None
 
+    def inlinable_def(self, st: State, f):
+        """A call to a function WITHOUT a contract whose definition is available in the verified module (module-level
+        function, or a method of the receiver's class) is inlined: the callee's real body is executed in place of the
+        call (extract-method refactors stay inside the fragment).  -> (FunctionDef, self SV or None) or None."""
+        if self.index is None or getattr(self, 'inline_depth', 0) >= 3:
+            return None
+        try:
+            if isinstance(f, ast.Name) and not st.has(f.id):
+                if self.resolve_function(f.id) is not None or hasattr(CallEval, 'fn_' + f.id) or f.id in self.R.funcs or f.id in self.R.macros:
+                    return None
+                node, _, _, _ = self.index.find(f'{self.cur_module}:{f.id}')
+                if isinstance(node, ast.FunctionDef) and node is not getattr(self, 'cur_fn_node', None):
+                    return node, None
+            if isinstance(f, ast.Attribute) and isinstance(f.value, ast.Name) and f.value.id == 'self' and st.has('self') \
+                    and st.get('self').t.k == 'obj' and f.attr not in MUTATORS:
+                recv = st.get('self')
+                if self.method_contract_for(recv, f.attr) is not None:
+                    return None
+                d = self.R.find_class_by_name(recv.t.name)
+                if d is None:
+                    return None
+                node, _, _, _ = self.index.find(f'{d.key}.{f.attr}')
+                if isinstance(node, ast.FunctionDef) and node is not getattr(self, 'cur_fn_node', None) \
+                        and not any(isinstance(x, (ast.Yield, ast.YieldFrom)) for x in ast.walk(node)):
+                    return node, recv
+        except (KeyError, IndexError):
+            return None
+        return None
+
+    def inline_function(self, fn: ast.FunctionDef, recv, n: ast.Call, st: State):
+        ev = Evaluator(self, st)
+        params = [a.arg for a in fn.args.posonlyargs + fn.args.args]
+        if recv is not None:
+            params = params[1:]
+        kwonly = [a.arg for a in fn.args.kwonlyargs]
+        if fn.args.vararg or fn.args.kwarg or any(isinstance(a, ast.Starred) for a in n.args) or any(k.arg is None for k in n.keywords):
+            raise Unsupported(f'inlining {fn.name}: star arguments')
+        if len(n.args) > len(params):
+            raise Unsupported(f'inlining {fn.name}: too many positional arguments')
+        binds = {}
+        for nm, a in zip(params, n.args):
+            binds[nm] = ev.ev(a)
+        for k in n.keywords:
+            if k.arg not in params + kwonly or k.arg in binds:
+                raise Unsupported(f'inlining {fn.name}: unexpected keyword {k.arg}')
+            binds[k.arg] = ev.ev(k.value)
+        defaults = dict(zip(params[len(params) - len(fn.args.defaults):], fn.args.defaults))
+        defaults.update({a: d for a, d in zip(kwonly, fn.args.kw_defaults) if d is not None})
+        for nm in params + kwonly:
+            if nm not in binds:
+                if nm not in defaults:
+                    raise Unsupported(f'inlining {fn.name}: missing argument {nm}')
+                binds[nm] = ev.ev(defaults[nm])
+        outs0 = self.settle(st, ev, n.lineno)
+        if recv is not None:
+            binds['self'] = recv
+        locals_ = {x.id for x in ast.walk(fn) if isinstance(x, ast.Name) and isinstance(x.ctx, ast.Store)} | set(binds)
+        # the callee must not see the caller's locals: every name it reads is its own, or is not a local of the caller
+        for x in ast.walk(fn):
+            if isinstance(x, ast.Name) and isinstance(x.ctx, ast.Load) and x.id not in locals_ and any(x.id in fr for fr in st.frames):
+                raise Unsupported(f'inlining {fn.name}: it reads the global `{x.id}`, which a local of the caller shadows')
+        ex = Extractor(display=self.cur.display if self.cur else ())
+        body = ex.clean(fn).body
+        st.frames.append(dict(binds))
+        st.frame_locals.append(locals_)
+        self.inline_depth = getattr(self, 'inline_depth', 0) + 1
+        self.trusted_uses[f'inlined (no contract): {fn.name}'] = self.trusted_uses.get(f'inlined (no contract): {fn.name}', 0) + 1
+        outs = []
+        try:
+            for o in self.exec_block(body, st):
+                o.st.frames.pop()
+                o.st.frame_locals.pop()
+                if o.kind in ('next', 'return'):
+                    outs.append(Outcome('next', o.st, o.val if o.kind == 'return' else SV(NONE, None)))
+                elif o.kind == 'raise':
+                    outs.append(o)
+                else:
+                    raise Unsupported('break/continue escaping an inlined function')
+        finally:
+            self.inline_depth -= 1
+        return outs0 + outs
+
     def resolve_function(self, dotted: str):
         """Free function / dotted external name -> contract (same module first, then any module, then trusted)."""
         for key in (f'{self.cur_module}:{dotted}', f'trusted:{dotted}'):
@@ -142,6 +224,8 @@ class Exec(Engine):
             return True
         if isinstance(f, ast.Attribute) and isinstance(f.value, ast.Name) and st.has(f.value.id) and st.get(f.value.id).t.k == 'thread':
             return True
+        if self.inlinable_def(st, f) is not None:
+            return True
         if isinstance(f, ast.Name):
             if st.has(f.id) and st.get(f.id).t.k == 'closure':
                 return True
@@ -177,6 +261,18 @@ class Exec(Engine):
         """Hoist effectful calls nested in strict positions into temporaries. Returns [stmts]."""
         pre = []
         eng = self
+        # `x = A if c else B` with an effectful call in A or B: the same as `if c: x = A` / `else: x = B`
+        if isinstance(stmt, (ast.Assign, ast.AnnAssign, ast.Return)) and isinstance(getattr(stmt, 'value', None), ast.IfExp):
+            ife = stmt.value
+            if any(isinstance(c, ast.Call) and self.is_effectful_call(st, c) for part in (ife.body, ife.orelse) for c in ast.walk(part)):
+                def with_value(v):
+                    s2 = copy.copy(stmt)
+                    s2.value = v
+                    return ast.copy_location(s2, stmt)
+                new_if = ast.If(test=ife.test, body=[with_value(ife.body)], orelse=[with_value(ife.orelse)])
+                ast.copy_location(new_if, stmt)
+                ast.fix_missing_locations(new_if)
+                return [new_if]
 
         class Hoist(ast.NodeTransformer):
             def __init__(self):
@@ -310,6 +406,8 @@ class Exec(Engine):
             parts = self.anf(st, copy.deepcopy(s))
             if len(parts) > 1:
                 return self.exec_block_raw(parts, st)
+            if type(parts[0]) is not type(s):
+                return self.exec_stmt(parts[0], st)       # desugared into another statement kind
             s = parts[0]
         try:
             return m(s, st)
@@ -318,6 +416,10 @@ class Exec(Engine):
             if isinstance(nm, str) and nm in getattr(self, 'assigned_locals', ()):
                 # a local that is assigned somewhere in the function but not on this path: UnboundLocalError
                 return [Outcome('raise', st, {'exc': self.new_exc(st, 'UnboundLocalError'), 'implicit': f'local `{nm}` read before assignment'})]
+            if isinstance(nm, str) and self.cur is not None and nm in set(self.cur.display):
+                raise Unsupported(f'a statement that is not display-only reads the display name `{nm}` (line {getattr(s, "lineno", "?")})')
+            if isinstance(nm, str):
+                raise Unsupported(f'unknown name `{nm}` (line {getattr(s, "lineno", "?")})')
             raise
 
     def exec_block_raw(self, stmts, st):
@@ -987,14 +1089,20 @@ class Exec(Engine):
             if f.attr == 'start':
                 fn = st.get(f.value.id).z
                 self.handler_stack.append(['BaseException'])
+                saved_int = self.interrupts
+                self.interrupts = 0          # KeyboardInterrupt is delivered to the MAIN thread only: no interrupt edges inside the helper thread's body
                 try:
                     outs = self.inline_closure(fn, ast.Call(func=ast.Name(id=fn.name, ctx=ast.Load()), args=[], keywords=[]), st)
                 finally:
+                    self.interrupts = saved_int
                     self.handler_stack.pop()
                 return [Outcome('next', o.st, SV(NONE, None)) for o in outs]
         # closures: inline
         if isinstance(f, ast.Name) and st.has(f.id) and st.get(f.id).t.k == 'closure':
             return self.inline_closure(st.get(f.id).z, n, st)
+        inl = self.inlinable_def(st, f)
+        if inl is not None:
+            return self.inline_function(inl[0], inl[1], n, st)
         if isinstance(f, ast.Attribute) and f.attr in MUTATORS:
             try:
                 ev = Evaluator(self, st.fork())
@@ -1998,6 +2106,8 @@ class Exec(Engine):
         self.yield_counter = 0
         self.handler_stack = []
         node, seg, l0, l1 = self.index.find(fkey)
+        self.cur_fn_node = node
+        self.inline_depth = 0
         ex = Extractor(display=c.display)
         fn = ex.clean(node)
         if c.classmethod_of:
